@@ -4,6 +4,7 @@ package core
 
 import (
 	"fmt"
+	"net"
 	"os"
 	"path/filepath"
 	"strings"
@@ -67,7 +68,6 @@ func c19Count(lines []string, sub string) int {
 	}
 	return n
 }
-
 
 // c19Calibrate makes sure that the observation channel of this check (the two log lines that report the start
 // and the stop of the runOnDemand command) still works on the tree under test: one held request on an on-demand
@@ -635,4 +635,111 @@ func TestVerifC19OnDemandStaticSource(t *testing.T) {
 		}
 		rec.Case(multi && bursts >= 2, strings.Join(hist, " ; "), cls...)
 	})
+}
+
+// TestVerifC19StaticSourceStoppedAfterRetry: an on-demand static source whose first attempt fails is re-created after
+// the retry pause (5 s); when the demand then times out, THAT instance must be stopped too (round-3 seeded change C19-s3:
+// the handler forgot that a re-created instance was running and returned without cancelling it, so the source kept
+// running after the stop and a later demand started a second one next to it).
+//
+// The "source" is a TCP listener of the harness: it closes the first connection at once (the RTSP client fails) and
+// holds every later one open without answering. A stopped source closes its connection at once; a forgotten one keeps
+// it until its own read timeout (10 s). One scenario, about 10 s of real time.
+func TestVerifC19StaticSourceStoppedAfterRetry(t *testing.T) {
+	rec := kit.R("TestVerifC19StaticSourceStoppedAfterRetry")
+	t.Cleanup(kit.Flush)
+
+	ln, err := net.Listen("tcp", "127.0.0.1:0")
+	if err != nil {
+		t.Fatalf("VERIF-INCONCLUSIVE: %v", err)
+	}
+	defer ln.Close()
+	type connEv struct {
+		n        int
+		accepted time.Time
+		closedBy chan time.Time // peer closed (read returned)
+	}
+	var mu sync.Mutex
+	var conns []*connEv
+	go func() {
+		for {
+			c, err2 := ln.Accept()
+			if err2 != nil {
+				return
+			}
+			mu.Lock()
+			ev := &connEv{n: len(conns), accepted: time.Now(), closedBy: make(chan time.Time, 1)}
+			conns = append(conns, ev)
+			mu.Unlock()
+			if ev.n == 0 {
+				c.Close()
+				continue
+			}
+			go func() {
+				defer c.Close()
+				buf := make([]byte, 4096)
+				for {
+					if _, err3 := c.Read(buf); err3 != nil {
+						ev.closedBy <- time.Now()
+						return
+					}
+				}
+			}()
+		}
+	}()
+
+	const startTimeout = 7 * time.Second
+	yaml := fmt.Sprintf("  p:\n    source: rtsp://%s/nothing\n    sourceOnDemand: yes\n    sourceOnDemandStartTimeout: %ds\n    sourceOnDemandCloseAfter: 1s\n",
+		ln.Addr().String(), int(startTimeout.Seconds()))
+	confs, err := vcPathConfs(yaml)
+	if err != nil {
+		t.Fatalf("VERIF-INCONCLUSIVE: configuration rejected: %v", err)
+	}
+	pm := vcNewPM(confs, vcPMOpts{})
+	defer func() { go pm.Close() }()
+
+	issued := time.Now()
+	answered := make(chan error, 1)
+	go func() {
+		_, err2 := pm.pathManager.Describe(defs.PathDescribeReq{AccessRequest: defs.PathAccessRequest{Name: "p", SkipAuth: true}})
+		answered <- err2
+	}()
+	select {
+	case err = <-answered:
+	case <-time.After(startTimeout + 15*time.Second):
+		t.Fatalf("the held describe was never answered although the source never became ready (start timeout %v)", startTimeout)
+	}
+	answeredAt := time.Now()
+	if err == nil {
+		t.Fatalf("the held describe was given a stream although the source never answered")
+	}
+
+	mu.Lock()
+	n := len(conns)
+	var second *connEv
+	if n >= 2 {
+		second = conns[1]
+	}
+	mu.Unlock()
+	desc := fmt.Sprintf("source fails at once, is re-created after the retry pause, demand times out after %v: %d connection(s) seen, answered after %v",
+		startTimeout, n, answeredAt.Sub(issued).Round(10*time.Millisecond))
+	if second == nil {
+		// the retry did not happen before the timeout (retry pause changed, or the harness was delayed): nothing to judge
+		rec.Case(false, desc, "no-retry-before-timeout")
+		return
+	}
+	select {
+	case at := <-second.closedBy:
+		rec.Case(true, desc+fmt.Sprintf(", re-created instance gone %v after the answer", at.Sub(answeredAt).Round(10*time.Millisecond)), "recreated-instance-stopped")
+	case <-time.After(4 * time.Second):
+		t.Fatalf("%s; the re-created source instance is still connected 4 s after the demand timed out: it was not stopped with the handler", desc)
+	}
+	// and no further instance appears once the demand is gone
+	time.Sleep(1500 * time.Millisecond)
+	mu.Lock()
+	n2 := len(conns)
+	mu.Unlock()
+	if n2 != n {
+		t.Fatalf("%s; %d new connection(s) of the source after the demand had timed out", desc, n2-n)
+	}
 }
